@@ -85,10 +85,10 @@ class _MinimizeStub:
 
     def __call__(self, fun, x0, bounds=None, method=None, **kw):
         for k in range(self.n_calls):
-            x = [self.ctx.real(f"trial{k}_{i}") for i in range(len(x0))]
             if bounds is not None:
-                for i, b in enumerate(bounds):
-                    self.ctx.assume(And(x[i] >= b[0], x[i] <= b[1]))
+                x = [self.ctx.real(f"trial{k}_{i}", lo=bounds[i][0], hi=bounds[i][1]) for i in range(len(x0))]
+            else:
+                x = [self.ctx.real(f"trial{k}_{i}") for i in range(len(x0))]
             self.trials.append(x)
             fun(x)
         if self.degenerate:
